@@ -20,7 +20,7 @@ import conemath as cm
 from common import correspond, frac_str
 
 TRUSTED = [
-    'Lean 4.33.0 kernel; axioms of every theorem in Props/C10.lean within {propext, Classical.choice, Quot.sound}',
+    'Lean 4.33.0 kernel; axioms of every theorem in Props/C10*.lean within {propext, Classical.choice, Quot.sound}',
     'harness/props/c10.py generators and canonicalisation (dense matrices of exact rationals)',
     'harness/stubs/mosek.py: recording stub standing in for the MOSEK API (MOSEK cannot be installed here); '
     'MOSEK cone definitions as published (quad, pexp, dexp)',
